@@ -57,6 +57,14 @@ def tasks(tier, seed):
     from .. import gen
     P += gen.programs(tier, seed, 300, 3000, "std") + gen.programs(tier, seed, 150, 1500, "full")
     out = [dict(p, opts={}) for p in P]
+    # the remove_unused option must not change what rhs computes (nor make it read a name that is no longer unpacked):
+    # models with unused parameters / states / chains of unused intermediates, and every fourth GEN program
+    from . import c12
+    for t in c12.UNUSED:
+        out.append({"family": "UNUSED", "id": text_id(t), "text": t, "opts": {"remove_unused": True}})
+    for k, p in enumerate(o for o in list(out) if o["family"] == "GEN"):
+        if k % 4 == 0:
+            out.append(dict(p, id=p["id"] + "|ru", opts={"remove_unused": True}))
     # options of CodeGenerator.rhs / monitor_values that get_code does not expose: use_cse (documented flag)
     for t in CSE_MODELS:
         out.append({"family": "CSE", "id": text_id(t), "text": t, "opts": {"use_cse": True}})
@@ -71,6 +79,18 @@ def work(task):
     prog = Prog(PROP, task, timeout_ms=10000 if task["family"] != "CORPUS" else 20000)
     m, ode = checks.load_all(prog, task["text"])
     if ode is None:
+        return prog.result()
+    if task["opts"].get("remove_unused"):
+        code = checks.generate(prog, "numpy|get_code|remove_unused", pipeline.gen_py, ode, remove_unused=True)
+        if code is None:
+            return prog.result()
+        try:
+            view = PyView(code, "numpy")
+        except SyntaxError as e:
+            prog.fact("numpy|parse|ru", False, "SyntaxError", f"emitted module does not parse: {e}")
+            return prog.result()
+        checks.check_named_slots(prog, view, m, "rhs", "state", [n for n in m.assigns if m.derivative_of(n)], "rhs", tag="|ru")
+        prog.nontrivial = True
         return prog.result()
     if task["opts"].get("use_cse"):
         code = checks.generate(prog, "numpy|CodeGenerator.rhs(use_cse=True)", pipeline.gen_py_generator, ode,
